@@ -15,7 +15,9 @@ import (
 	"deps.dev/util/semver"
 )
 
-func c06PK(name string) resolve.PackageKey { return resolve.PackageKey{System: resolve.NPM, Name: name} }
+func c06PK(name string) resolve.PackageKey {
+	return resolve.PackageKey{System: resolve.NPM, Name: name}
+}
 
 var c06N = [...]string{"0", "1", "2", "3", "4", "5", "6", "7"}
 var c06Names = []string{"a", "b", "c"}
@@ -247,7 +249,6 @@ func VerifC06Resolve() {
 		}
 	}
 }
-
 
 // ---- C05: resolution is a pure function of the universe and the root
 
